@@ -114,6 +114,7 @@ func main() {
 	only := flag.String("only", "", "catalogue: only the items whose id contains this")
 	skip := flag.String("skip", "", "catalogue: leave out the items whose id starts with this")
 	repsFlag := flag.Int("reps", 200, "conc: native repetitions of every call")
+	gen := flag.Int("gen", 0, "conc: this many generated concurrent programs besides the catalogue")
 	noRace := flag.Bool("norace", false, "conc: run the native side without the race detector")
 	keep := flag.String("keep", "", "keep the scratch module in this directory")
 	verbose := flag.Bool("v", false, "print every call")
@@ -187,7 +188,7 @@ func main() {
 	conc := *profile == "conc"
 	catalogue := *profile == "catalogue" || conc
 	if catalogue {
-		cases = catalogueCases(mod, *only, *skip, conc)
+		cases = catalogueCases(mod, *only, *skip, conc, *seed, *gen)
 		*n = 0
 	}
 	lenient := catalogue || *profile == "inject" || *profile == "minigo-neg" || *profile == "minigoc" || *profile == "minigos" // declarations may be rejected
